@@ -1,22 +1,28 @@
 import BSModel.Driver.Util
 import BSModel.Model.EncodingOut
+import BSModel.Model.EncodingOutUtf
 /-! line protocol of C08 (output in a target encoding)
 
     c08 xcr <codec> <cps>                     xmlcharrefreplace C s                      -> cps
-    c08 enc <codec> <s|x> <cps>               pyEncode C strict|xmlcharrefreplace s      -> B:<bytes> | E:<pos>:<cp>
+    c08 enc <codec> <s|i|r|x|b> <cps>         pyEncode C strict|ignore|replace|xmlcharrefreplace|backslashreplace s
+                                                                                         -> B:<bytes> | E:<pos>:<cp>
+    c08 sniff <bytes>                         sniffBom                                   -> utf-16be|utf-16le|utf-8|utf-32be|utf-32le|N
     c08 dec <codec> <bytes>                   C.dec                                      -> cps | N
     c08 subcs <e>                             CharsetMetaAttributeValue.substitute_encoding
     c08 subc <e> <orig>                       ContentMetaAttributeValue.substitute_encoding
     c08 search <orig>                         CHARSET_RE.search(orig) is not None        -> 0|1
-    c08 setup <name> <n> (<key> <val>)*n      set_up_substitutions                       -> key:kind … (kind p|c|m)
+    c08 setup <name> <n> (<key> <p|l|n> <val>)*n  set_up_substitutions                       -> key:kind … (kind p|c|m)
     c08 render <d|pN|c|cpN> <ev|N> <tree>     decode / decode(indent_level=N) / decode_contents -> cps
     c08 encode <e|p|c|cs> <name> <codec> <tree>   encode / prettify(enc) / encode_contents / encode_contents with `strict`
     c08 xmldecl <ev|N>
     c08 read <t|a> <codec|-> <cps>            readText (orig = that single-byte codec) / readAttr (quoted value)
     c08 find <cps>                            findDeclared                               -> cps | N
 
-    codec := sb:<name cps>  (generated single-byte table)  |  set:<0|1>:<encodable cps>  (identity bytes; 1 = ASCII encodable too)
-    tree  := S <cps> | T <name> <nattrs> (<key> <p|c|m> <val>)*nattrs <nkids> tree*nkids -/
+    codec := sb:<name cps>  (generated single-byte table)  |  utf:<name cps>  (utf-8, utf-16[-le|-be], utf-32[-le|-be])
+             |  set:<0|1>:<encodable cps>  (identity bytes; 1 = ASCII encodable too)
+    tree  := S <cps> | T <name> <nattrs> (<key> <p|c|m|n|l> <val>)*nattrs <nkids> tree*nkids
+             (n: value None, <val> ignored; l: list value, items separated by `;`, `_` alone = empty list)
+    render modes s / ps / cs: str(tag) / tag.prettify() / tag.decode_contents() with their default eventual_encoding -/
 namespace BS.Drv.C08
 open BS.EncodingOut BS.Drv BS.Gen.EncodingOut
 
@@ -27,6 +33,7 @@ def lookupSb (nm : PStr) : List (PStr × List Nat) → Option (List Nat)
 def parseCodec (s : String) : Option Codec :=
   match s.splitOn ":" with
   | ["sb", nm] => (lookupSb (cps nm) sbCodecs).map tableCodec
+  | ["utf", nm] => (utfCodecs.find? (fun p => p.1 == cps nm)).map (·.2)
   | ["set", a, l] => some (setCodec (cps l) (a == "1"))
   | _ => none
 
@@ -34,14 +41,29 @@ def showRes : EncResult → String
   | .bytes b => "B:" ++ showL b
   | .unicodeEncodeError p c => s!"E:{p}:{c}"
 
-def parseKind (k : String) (v : PStr) : AttrVal :=
-  if k == "c" then .charsetMeta v else if k == "m" then .contentMeta v else .plain v
+def parseHandler (h : String) : Handler :=
+  if h == "s" then .strict else if h == "i" then .ignore else if h == "r" then .replace
+  else if h == "b" then .backslashreplace else .xmlcharrefreplace
+
+def showSniff : Option Sniffed → String
+  | some .utf16be => "utf-16be"
+  | some .utf16le => "utf-16le"
+  | some .utf8 => "utf-8"
+  | some .utf32be => "utf-32be"
+  | some .utf32le => "utf-32le"
+  | none => "N"
+
+def parseKindS (k : String) (v : String) : AttrVal :=
+  if k == "c" then .charsetMeta (cps v) else if k == "m" then .contentMeta (cps v)
+  else if k == "n" then .novalue
+  else if k == "l" then .list ((v.splitOn ";").filter (· ≠ "_") |>.map cps)
+  else .plain (cps v)
 
 def parseAttrs : Nat → List String → Option (List (PStr × AttrVal) × List String)
   | 0, rest => some ([], rest)
   | n + 1, k :: kind :: v :: rest =>
     match parseAttrs n rest with
-    | some (as, rest') => some ((cps k, parseKind kind (cps v)) :: as, rest')
+    | some (as, rest') => some ((cps k, parseKindS kind v) :: as, rest')
     | none => none
   | _ + 1, _ => none
 
@@ -75,6 +97,8 @@ def kindOf : AttrVal → String
   | .plain _ => "p"
   | .charsetMeta _ => "c"
   | .contentMeta _ => "m"
+  | .novalue => "n"
+  | .list _ => "l"
 
 def parseMode (m : String) : Bool × Option Nat :=
   if m == "d" then (false, none)
@@ -88,26 +112,31 @@ def handle (toks : List String) : String :=
     | some C => showL (xmlcharrefreplace C (cps s))
     | none => "bad-codec"
   | ["enc", c, h, s] => match parseCodec c with
-    | some C => showRes (pyEncode C (if h == "s" then .strict else .xmlcharrefreplace) (cps s))
+    | some C => showRes (pyEncode C (parseHandler h) (cps s))
     | none => "bad-codec"
   | ["dec", c, b] => match parseCodec c with
     | some C => match C.dec (cps b) with
       | some s => showL s
       | none => "N"
     | none => "bad-codec"
+  | ["sniff", b] => showSniff (sniffBom (cps b))
   | ["subcs", e] => showL (substituteCharset (cps e))
   | ["subc", e, o] => showL (substituteContent (cps e) (cps o))
   | ["search", o] => bit (charsetReSearch true (cps o))
   | "setup" :: nm :: n :: rest =>
     let rec pairs : Nat → List String → List (PStr × AttrVal)
       | 0, _ => []
-      | k + 1, a :: v :: more => (cps a, .plain (cps v)) :: pairs k more
+      | k + 1, a :: kind :: v :: more => (cps a, parseKindS kind v) :: pairs k more
       | _ + 1, _ => []
     let out := setUpSubstitutions (cps nm) (pairs n.toNat! rest)
     if out.isEmpty then "-" else " ".intercalate (out.map (fun a => showL a.1 ++ ":" ++ kindOf a.2))
   | "render" :: m :: ev :: rest =>
     match parseNode (rest.length + 1) rest with
     | some (t, []) =>
+      if m == "s" then showL (strImpl t)
+      else if m == "ps" then showL (prettifyStrImpl t)
+      else if m == "cs" then showL (decodeContentsDefault t)
+      else
       let (contents, indent) := parseMode m
       showL (if contents then decodeContentsImpl indent (parseEv ev) t else decodeImpl indent (parseEv ev) t)
     | _ => "bad-tree"
@@ -116,6 +145,10 @@ def handle (toks : List String) : String :=
     | some C, some (t, []) =>
       showRes (match entry with
         | "e" => encodeImpl (cps nm) C none t
+        | "ei" => encodeImpl (cps nm) C none t .ignore
+        | "er" => encodeImpl (cps nm) C none t .replace
+        | "eb" => encodeImpl (cps nm) C none t .backslashreplace
+        | "es" => encodeImpl (cps nm) C none t .strict
         | "p" => prettifyImpl (cps nm) C t
         | "c" => encodeContentsImpl (cps nm) C none t
         | _ => encodeContentsWith .strict (cps nm) C none t)
